@@ -142,13 +142,21 @@ def check_C17(tier, seed):
     t0 = time.time()
     build_harness()
     ms = [tlc_model("MC_Ledger", f"MC_Ledger_W{w}.cfg", workers=8, name="mc_ledger") for w in ([3, 4] if tier == "quick" else [3, 4, 5])]
+    # unbounded number of payments at true 64-bit constants: inductive invariant with Apalache (extra; the mutant must fail)
+    ok, msg = apalache_inductive(os.path.join(SPEC, "apalache", "LedgerInd.tla"), "Init", "IndInit", "IndInv")
+    if not ok:
+        raise ToolError("Apalache could not establish the inductive ledger invariant:\n" + msg)
+    okm, _ = apalache_inductive(os.path.join(SPEC, "apalache", "LedgerIndMut.tla"), "Init", "IndInit", "IndInv")
+    if okm:
+        raise ToolError("the mutated ledger (upper bound of the merchant balance dropped) still satisfies the inductive invariant: vacuous")
     ev = lib_checks.run_lib("C17", "ledger", tier, seed, "Trace_Ledger", lambda e: True)
     return lib_checks.lib_evidence("C17", tier, seed, ms, ev,
         "one evaluation = one call of CustomerBalance/MerchantBalance::try_new, PaymentAmount::pay_merchant/pay_customer, MerchantBalance::try_add, decoding of a raw i64 amount, payment application "
         "(Ready::start on states whose balances are patched into the image) or allow_payment under a wire-decoded amount, over the lattice {0,1,2,2^31,2^32,2^62,2^63-2,2^63-1,2^63,2^63+1,2^64-1} x signed "
         "counterparts incl. i64::MIN + amounts relative to the balances + random values, harness built with overflow checks; TLC recomputes every result with Ledger.tla on 64-bit limb numbers; "
         "distinct = (operation, operands, outcome)",
-        "tlc MC_Ledger (every input of a W-bit machine, W=3..5: TryNewExact PayCtorsExact ApplyExact Conservation TryAddExact EncHom LimbRefines) + Trace_Ledger", t0,
+        "tlc MC_Ledger (every input of a W-bit machine, W=3..5: TryNewExact PayCtorsExact ApplyExact Conservation TryAddExact EncHom LimbRefines) + Trace_Ledger"
+        " + apalache-mc LedgerInd (inductive invariant IndInv at MaxBal = 2^63-1, any number of payments)", t0,
         lambda e: json.dumps({k: e[k] for k in e if k not in ("v", "ncb", "nmb")}, sort_keys=True),
         ["limb arithmetic (Big.tla) refines integer arithmetic: model-checked in MC_Ledger with base 4", "the scalar encoding is crate-private and is exercised through allow_payment (accept for the proven amount, clean refusal otherwise)"])
 
